@@ -329,7 +329,7 @@ func c12Tunnel(c c12Case, tok, host string, port uint16, rep *Report) string {
 }
 
 func c12(env *Env, rep *Report) {
-	rep.Rule = "product of host-selection modes {roundrobin, signed, unsigned, any} x host lists {1 entry, 3 entries, with user placeholder} x host parameter {absent, listed, unlisted, placeholder entry verbatim, valid query token for a listed / unlisted subject, forged key, expired, wrong issuer, alg none} x user names {alice, alice@example.com, a@b@c, empty} x IdP subject {equal to the user name, different} x domain splitting {off, on} x user-name template {none, '{{ username }}@x', with '{{ token }}'} x session {none, fresh, logged in through the real callback} x 3 client address forms (also with the login made from another address than the download); quick: template x address form on the diagonal (3 of 9 combinations), thorough: full product. Plus schedules with statement-level scheduling points (every statement of web, security, identity and rdp is a point): two logged-in browsers of different users download at the same time, without and with an .rdp template, every schedule with one deviation; every file must carry its own session's user, host, address and token. " +
+	rep.Rule = "product of host-selection modes {roundrobin, signed, unsigned, any} x host lists {1 entry, 3 entries, with user placeholder} x host parameter {absent, listed, unlisted, placeholder entry verbatim, valid query token for a listed / unlisted subject, forged key, expired, wrong issuer, alg none} x user names {alice, alice@example.com, a@b@c, empty} x IdP subject {equal to the user name, different} x domain splitting {off, on} x user-name template {none, '{{ username }}@x', with '{{ token }}'} x session {none, fresh, logged in through the real callback} x 4 client address forms (peer only, forwarded IPv4, forwarded chain, a forwarded element that is not an address) (also with the login made from another address than the download); quick: template x address form on the diagonal (3 of 9 combinations), thorough: full product. Plus schedules with statement-level scheduling points (every statement of web, security, identity and rdp is a point): two logged-in browsers of different users download at the same time, without and with an .rdp template, every schedule with one deviation; every file must carry its own session's user, host, address and token. " +
 		"Each case drives the real router pieces (EnrichContext, Authenticated, HandleCallback, HandleDownload) with a scripted IdP. Oracle: not logged in => 302 to the IdP and no token anywhere; logged in => file well-formed, names the configured gateway, target chosen by the reference policy, the token's MAC verifies under the configured key and its claims are exactly {that host, session user (domain stripped iff splitting), reference client address, the session's access token, issuer, exp <= 5 min}; then (roundrobin / unsigned / any) the host and token are presented unmodified from the same address to the real tunnel path (EnrichContext, CheckPAACookie, CheckSession(CheckHost)) and must open the channel. distinct_nontrivial = distinct cases."
 	rep.Assumptions = append(rep.Assumptions, "cookie session store (C13 covers both stores)", "the IdP's userinfo subject equals the ID token subject", "round-robin's random pick is an enumerated input: math/rand in cmd/rdpgw/web is replaced by a harness-controlled source through the build overlay, and every entry is picked in turn")
 	modes := []string{"roundrobin", "signed", "unsigned", "any"}
@@ -339,7 +339,16 @@ func c12(env *Env, rep *Report) {
 	templates := []string{"", "{{ username }}@x", "{{ username }}:{{ token }}"}
 	sessions := []string{"none", "fresh", "auth"}
 	forms := c04Forms()
-	addrs := []addrForm{forms[0], forms[4], forms[len(forms)-7]}
+	byName := func(n string) addrForm {
+		for _, f := range forms {
+			if f.Name == n {
+				return f
+			}
+		}
+		infra("address form %s missing", n)
+		return addrForm{}
+	}
+	addrs := []addrForm{forms[0], forms[4], byName("xff5"), byName("xff-unknown")}
 	var cases []c12Case
 	k := 0
 	for _, m := range modes {
